@@ -13,4 +13,24 @@ CHECKS = {
         "note": ASSUME % "T4, T6, T8, T9",
         "technique": "static analysis: MIR dominance/reachability + abstract interpretation over a finite store (custom rustc driver)",
     },
+    "C05": {
+        "text": "Exit table: every abstract return state of the lifecycle coroutine (exhaustive exploration of CFG x constant store x hook-outcome flags, all feature sets) is compared field by field with what its path says happened (variant, phase constant, killed == Terminate consumed, error == Err payload of the first failing hook, actor == the instance every hook borrowed, None only after failed on_start). The lifecycle future goes directly into tokio::spawn and catch_unwind is absent, so a panic can only surface as JoinError (tokio axiom). Accessor laws: the complete decision table of all 14 ActorResult methods and the tuple conversion, computed from MIR over all 18 shapes of the enum, equals the law table. All combinations of cause x hook outcome are covered because they are all paths of one function.",
+        "note": ASSUME % "T6, T8, T9",
+        "technique": "static analysis: abstract interpretation of the lifecycle MIR (exit table) + exhaustive decision tables of loop-free accessors + who-may-call",
+    },
+    "C06": {
+        "text": "kill(): full decision table (Ok/Full/Closed x logging branches) always returns Ok(()); plain fn, no suspension point, no lock/blocking/thread/runtime primitive reachable (crate-local callees inlined to depth 3), only channel operation is try_send on the dedicated control channel (constant capacity >= 1, one try_send site in the crate). Pre-emption: exactly one select! in the loop, `biased;`, branch order control-recv < mailbox-recv < on_run established by mapping resolved calls into the DSL branch spans, first two unconditional, no random start in the poll closure, at most one handler per iteration, Some(_) arm leads to on_stop(killed=true) without a further handler. With tokio's documented biased-select semantics this implies the property for every schedule.",
+        "note": ASSUME % "T1, T2, T4, T8, T9",
+        "technique": "static analysis: select!-DSL lexing + resolved-call mapping, decision table of kill(), who-may-call on the control channel, CFG reachability",
+    },
+    "C07": {
+        "text": "No strong handle is stored in the lifecycle coroutine across the select! suspension point (compiler's coroutine layout + ownership walk over saved-local types + must-move dataflow for the locals the pre-elaboration layout over-approximates), for every feature set; the spawn function leaks no strong value; ActorWeak owns nothing strong, only ActorWeak/ActorRef are coerced into the weak/strong trait objects, no other impls, no static owns a handle; every loop-exit edge lies in the control-signal, stop/None or on_run-Err arm, the other arms only return to the select!; closed channels lead to on_stop(false)/Completed{killed:false} (C04/C05 rules re-evaluated); upgrade() decided by its decision table.",
+        "note": ASSUME % "T2, T4, T8, T9",
+        "technique": "static analysis: coroutine-layout liveness + ownership type walk + must-move dataflow, loop-exit dominance, impl/unsize-coercion inventory",
+    },
+    "C08": {
+        "text": "on_run is the last branch of the biased select! (C06 select rules); its precondition is a single bool local (located through the macro call-site span), initialised true before the loop, never mutably borrowed, assigned inside the loop only the constant false under the Ok(false) arm; in the exhaustive abstract exploration (with tokio's disabled-branch semantics) every re-entry of the select! after Ok(false) has the flag false and after Ok(true) true; both arms only return to the select!; Err leads to exactly one on_stop(false) and a Failed result; the on_run future is polled only by the select!.",
+        "note": ASSUME % "T4, T8, T9",
+        "technique": "static analysis: select!-DSL facts + reaching assignments of the idle flag + abstract interpretation of the loop",
+    },
 }
